@@ -318,7 +318,8 @@ def _scale_checks(fn_name, ref=None, shift_invariant=True, weighted=False):
 for _name, _ref, _shift in (("median_absolute_deviation", _ref_mad, True), ("interquartile_range", _ref_iqr, True),
                             ("gapper_scale", _ref_gapper, True), ("q_n", _ref_qn, True),
                             ("biweight_midvariance", _ref_bimidvar, False)):
-    contract("cnvlib/descriptives.py::" + _name, params=dict(a=VecT(NReal)), bounded=True,
+    contract("cnvlib/descriptives.py::" + _name + ("#rt" if _name in ("median_absolute_deviation", "weighted_std") else ""),
+             params=dict(a=VecT(NReal)), bounded=True,
              gen=(lambda rng, tier, i, _n=_name: dict(a=_vec(rng, tier, 40 if _n == "q_n" else None)))
              if _name == "q_n" else _gen_a_nan,
              call=_call_a, props=("C19",) + (("C05",) if _name == "biweight_midvariance" else ()) + (("C17",)),
@@ -492,3 +493,35 @@ def _gen_pad(rng, tier, i):
 
 contract("cnvlib/smoothing.py::_pad_array", params=dict(x=VecT(Real), wing=Int), bounded=True, gen=_gen_pad,
          props=("C19",), checks=[("mirror_padding", _pad_check)])
+
+
+# ----------------------------------------------------------------------------- deductive: bodies of two decorated estimators
+contract(
+    "cnvlib/descriptives.py::median_absolute_deviation",
+    params=dict(a=VecT(Real), scale_to_sd=Bool),
+    returns=Real,
+    requires=["len(a) >= 1"],
+    ensures=[
+        ("non_negative", "result >= 0"),
+        ("zero_on_constant_data", "implies(forall(0, len(a), lambda k: a[k] == a[0]), result == 0)"),
+    ],
+    props=("C19",), domain="skip",
+    canaries=[("signed_deviations", "np.median(np.abs(a - a_median))", "np.median(a - a_median)")],
+    notes="the body under the on_array decorator (which hands it a NaN-free array of at least two values; the decorator "
+          "itself is exercised by the bounded twin); np.median is abstract: some element lies at or below it and some at "
+          "or above it",
+)
+
+contract(
+    "cnvlib/descriptives.py::mean_squared_error",
+    params=dict(a=VecT(Real), initial=Lit(None)),
+    returns=Real,
+    requires=["len(a) >= 1"],
+    ensures=[
+        # from zero by default (the deviations are handed in): the mean of the squares, not their variance
+        ("mean_of_squares", "result == sumof(Vec(len(a), lambda k: a[k] ** 2)) / len(a)"),
+    ],
+    props=("C17", "C19"), domain="skip",
+    canaries=[("mean_subtracted_first", "return (a**2).mean()", "return ((a - a.mean())**2).mean()")],
+    notes="the body under the on_array decorator; products are uninterpreted (congruence)",
+)
